@@ -216,3 +216,122 @@ Proof.
   rewrite H1, H2. cbn [andb]. change (startswith [HASH] (34 :: w)) with false.
   rewrite (lex_core_cont dec c w r Hc). reflexivity.
 Qed.
+
+(* ---- comment lines:  # text   #. text   #: refs   #, flags *)
+Lemma span_space s : exists ws x, s = ws ++ x /\ all_space ws /\ (x = [] \/ starts_nonspace x).
+Proof.
+  induction s as [|c s IH].
+  - exists [], []. repeat split; [constructor|now left].
+  - destruct (py_isspace c) eqn:E.
+    + destruct IH as (ws & x & -> & Hws & Hx). exists (c :: ws), x. repeat split; [|exact Hx].
+      constructor; [now apply is_space_iff|exact Hws].
+    + exists [], (c :: s). repeat split; [constructor|]. right. cbn. intros H. apply is_space_iff in H. congruence.
+Qed.
+
+Lemma lex_hash_line t0 y sep s :
+  In (t0, y) [([35], Ytc); ([35; 46], Ygc); ([35; 58], Yoc); ([35; 44], Yfl)] ->
+  is_space sep -> trimmed (t0 ++ sep :: s) ->
+  lex_line false (t0 ++ sep :: s) = LLine false true (AProc y (t0 ++ sep :: s)).
+Proof.
+  intros Hin Hsep Htr.
+  assert (Hns : no_space t0 /\ t0 <> []).
+  { assert (H35 : ~ is_space 35) by apply not_space_chars.
+    assert (Hp : forall c, In c [46; 58; 44] -> ~ is_space c).
+    { intros c Hc H. unfold is_space in H. cbn [In] in *. repeat (destruct Hc as [Hc|Hc]; [subst c; repeat (destruct H as [H|H]; [discriminate H|]); destruct H|]). destruct Hc. }
+    cbn [In] in Hin. repeat (destruct Hin as [Hin|Hin]; [inversion Hin; subst; split; [repeat constructor; try assumption; apply Hp; cbn; tauto|discriminate]|]). destruct Hin. }
+  destruct Hns as [Hns Hne].
+  destruct (span_space s) as (ws & x & -> & Hws & Hx).
+  assert (Hx' : starts_nonspace x).
+  { destruct Hx as [-> | Hx]; [|exact Hx]. exfalso. rewrite app_nil_r in Htr.
+    destruct t0 as [|c0 t0']; [congruence|]. destruct Htr as [_ Hl]. apply Hl.
+    change ((c0 :: t0') ++ sep :: ws) with ((c0 :: t0') ++ (sep :: ws)).
+    destruct (@exists_last _ (sep :: ws) ltac:(discriminate)) as (l' & z & Ez). rewrite Ez, app_assoc, last_last.
+    assert (Hall : all_space (sep :: ws)) by (constructor; assumption). rewrite Ez in Hall.
+    apply Forall_app in Hall. destruct Hall as [_ Hz]. now inversion Hz. }
+  destruct (split2_two t0 (sep :: ws) x Hns Hne (Forall_cons _ Hsep Hws) ltac:(discriminate) Hx') as (t1 & r & E & _).
+  change (t0 ++ (sep :: ws) ++ x) with (t0 ++ sep :: ws ++ x) in E.
+  rewrite lex_line_body; [|exact Htr|destruct t0; [congruence|discriminate]]. rewrite E. unfold lex_tokens, lex_core.
+  cbn [In] in Hin. repeat (destruct Hin as [Hin|Hin]; [inversion Hin; subst; reflexivity|]). destruct Hin.
+Qed.
+
+Lemma lex_tc_empty : lex_line false [35] = LLine false true (AProc Ytc [35]).
+Proof. reflexivity. Qed.
+
+Lemma trimmed_app_last a t : a <> [] -> ~ is_space (hd 0 a) -> t <> [] -> ~ is_space (last t 0) -> trimmed (a ++ t).
+Proof.
+  intros Ha Hh Ht Hl. destruct a as [|c a']; [congruence|]. split; [exact Hh|].
+  destruct (@exists_last _ t Ht) as (t' & z & ->). rewrite last_last in Hl.
+  rewrite app_assoc. now rewrite last_last.
+Qed.
+
+Lemma trimmed_parts t : trimmed t -> t <> [] -> starts_nonspace t /\ ~ is_space (last t 0).
+Proof. destruct t; [congruence|]. intros [H1 H2] _. split; assumption. Qed.
+
+Theorem lex_cline_simple cl : (forall dec, cline_ok dec cl) \/ True ->
+  match cl with
+  | CTrans t => trimmed t -> lex_line false (tc_cur t) = LLine false true (AProc Ytc (tc_cur t))
+  | CExtr sep t => sep_ok sep -> t <> [] -> trimmed t ->
+      lex_line false (35 :: 46 :: sep :: t) = LLine false true (AProc Ygc (35 :: 46 :: sep :: t))
+  | _ => True
+  end.
+Proof.
+  intros _. destruct cl as [t | sep t | | |]; try exact I.
+  - intros Ht. unfold tc_cur. destruct t as [|c t']; [reflexivity|].
+    destruct (trimmed_parts _ Ht ltac:(discriminate)) as [Hs Hl].
+    apply (lex_hash_line [35] Ytc 32 (c :: t')); [cbn; tauto | unfold is_space; cbn; tauto |].
+    change ([35] ++ 32 :: c :: t') with ([35; 32] ++ (c :: t')). apply trimmed_app_last; try discriminate; [apply not_space_chars|exact Hl].
+  - intros [Hsep _] Hne Ht. destruct (trimmed_parts _ Ht Hne) as [Hs Hl].
+    apply (lex_hash_line [35; 46] Ygc sep t); [cbn; tauto | exact Hsep |].
+    change ([35; 46] ++ sep :: t) with ([35; 46; sep] ++ t). apply trimmed_app_last; try discriminate; [apply not_space_chars|assumption|exact Hl].
+Qed.
+
+(* #: and #, lines: the token is the whole line; trailing white space is not part of the body *)
+Theorem lex_refs_flags_line t0 y sep body :
+  In (t0, y) [([35; 58], Yoc); ([35; 44], Yfl)] -> is_space sep -> body <> [] -> ~ is_space (last body 0) ->
+  lex_line false (t0 ++ sep :: body) = LLine false true (AProc y (t0 ++ sep :: body)).
+Proof.
+  intros Hin Hsep Hne Hl. apply lex_hash_line; [cbn [In] in *; tauto | exact Hsep |].
+  assert (E : exists a, t0 ++ sep :: body = a ++ body /\ a <> [] /\ hd 0 a = 35).
+  { cbn [In] in Hin. destruct Hin as [Hin|[Hin|[]]]; inversion Hin; subst; [exists [35; 58; sep]|exists [35; 44; sep]]; repeat split; discriminate. }
+  destruct E as (a & -> & Ha & Hh). apply trimmed_app_last; try assumption. rewrite Hh. apply not_space_chars.
+Qed.
+
+(* ---- #~| lines are dropped *)
+Lemma lex_prev_obsolete s : ends_word s -> trimmed ([35; 126; 124] ++ s) -> lex_line false ([35; 126; 124] ++ s) = LPrevObsolete.
+Proof.
+  intros Hs Htr. rewrite lex_line_body; [|exact Htr|discriminate].
+  assert (Hns : no_space [35; 126; 124]).
+  { repeat constructor; unfold is_space; cbn [In]; intros H; repeat (destruct H as [H|H]; [discriminate H|]); destruct H. }
+  unfold split2. rewrite lstrip_nonspace by (cbn; inversion Hns; assumption).
+  cbn [app] in *. change (35 :: 126 :: 124 :: s) with ([35; 126; 124] ++ s). rewrite (word_app _ _ Hns Hs).
+  destruct (lstrip s); [reflexivity|]. destruct (word (n :: s0)). destruct (lstrip s2); reflexivity.
+Qed.
+
+(* ---- msgstr[i] "..." *)
+Lemma lex_mx dec i ws c : i < 10 -> all_space ws -> ws <> [] -> chunk_ok dec c ->
+  lex_line false (mx_cur i ws c) = LLine false false (AProc Ymx (mx_cur i ws c)).
+Proof.
+  intros Hi Hws Hne Hc.
+  assert (Hd : idx_digits i = [48 + i]) by (unfold idx_digits; replace (i <? 10) with true by lia; reflexivity).
+  set (t0 := k_msgstr_br ++ [48 + i; 93]).
+  assert (Eb : mx_cur i ws c = t0 ++ ws ++ quoted c) by (unfold mx_cur, t0; rewrite Hd, <- !app_assoc; reflexivity).
+  assert (Hns : no_space t0).
+  { unfold t0, k_msgstr_br, k_msgstr. cbn [app]. repeat constructor;
+      unfold is_space; cbn [In]; intros H; repeat (destruct H as [H|H]; [try discriminate H; lia|]); destruct H. }
+  destruct (quoted_trimmed c) as (_ & _ & Hst & _).
+  destruct (split2_two t0 ws (quoted c) Hns ltac:(discriminate) Hws Hne Hst) as (t1 & r & E & _).
+  rewrite Eb.
+  assert (Htr : trimmed (t0 ++ ws ++ quoted c)).
+  { unfold quoted. replace (t0 ++ ws ++ 34 :: chunk_text c ++ [34]) with ((t0 ++ ws ++ 34 :: chunk_text c) ++ [34])
+      by (rewrite <- !app_assoc; reflexivity).
+    split; [apply not_space_chars|]. rewrite last_last. apply not_space_chars. }
+  rewrite lex_line_body; [|exact Htr|discriminate]. rewrite E. unfold lex_tokens.
+  assert (H1 : list_eqb t0 [HASH; 126; 124] = false) by reflexivity.
+  assert (H2 : list_eqb t0 [HASH; 126] = false) by reflexivity.
+  assert (H3 : startswith [HASH] t0 = false) by reflexivity.
+  rewrite H1, H2, H3. cbn [andb]. unfold lex_core.
+  assert (H4 : keyword_sym t0 = None) by reflexivity. rewrite H4.
+  assert (H5 : list_eqb t0 [HASH; 58] = false) by reflexivity. rewrite H5.
+  assert (H6 : startswith [34] (t0 ++ ws ++ quoted c) = false) by reflexivity. rewrite H6.
+  assert (H7 : startswith k_msgstr_br (t0 ++ ws ++ quoted c) = true) by reflexivity. rewrite H7. reflexivity.
+Qed.
